@@ -10,6 +10,45 @@ Definition pl := parse_list parse_hexZ.
 Definition prz := print_hexZ.
 Definition prl := print_list print_hexZ.
 
+(* ---- call histories: program = instructions separated by ';', operands by ':' ---- *)
+Definition colon : N := 58.
+Definition semi : N := 59.
+Definition slash : N := 47.
+
+Definition parse_vinstr (s : list N) : option vinstr :=
+  match split colon s with
+  | [op; a] => if str_eqb op $"new" then option_map VNew (parse_nat a) else None
+  | [op; a; b] =>
+      if str_eqb op $"basis" then match parse_nat a, parse_nat b with Some x, Some y => Some (VBasis x y) | _, _ => None end
+      else if str_eqb op $"add" then match parse_nat a, parse_nat b with Some x, Some y => Some (VAdd x y) | _, _ => None end
+      else if str_eqb op $"lsh" then match parse_nat a, parse_decN b with Some x, Some y => Some (VLsh x y) | _, _ => None end
+      else if str_eqb op $"idx" then match parse_nat a, parse_nat b with Some x, Some y => Some (VIdx x y) | _, _ => None end
+      else None
+  | _ => None
+  end.
+
+Definition parse_linstr (s : list N) : option linstr :=
+  match split colon s with
+  | [op; a] =>
+      if str_eqb op $"lit" then option_map LLit (pl a)
+      else if str_eqb op $"clone" then option_map LClone (parse_nat a)
+      else if str_eqb op $"unique" then option_map LUnique (parse_nat a)
+      else if str_eqb op $"sort" then option_map LSort (parse_nat a)
+      else None
+  | [op; a; b] =>
+      if str_eqb op $"concat" then match parse_nat a, parse_nat b with Some x, Some y => Some (LConcat x y) | _, _ => None end
+      else if str_eqb op $"merge" then match parse_nat a, parse_nat b with Some x, Some y => Some (LMerge x y) | _, _ => None end
+      else if str_eqb op $"insert" then match parse_nat a, pz b with Some x, Some y => Some (LInsert x y) | _, _ => None end
+      else None
+  | [op; a; b; c] =>
+      if str_eqb op $"sub" then match parse_nat a, parse_nat b, parse_nat c with Some x, Some y, Some z => Some (LSub x y z) | _, _, _ => None end
+      else if str_eqb op $"minmax" then match parse_nat a, parse_nat b, parse_nat c with Some x, Some y, Some z => Some (LMinMax x y z) | _, _, _ => None end
+      else None
+  | _ => None
+  end.
+
+Definition print_regs (regs : list (list Z)) : list N := join [slash] (map prl regs).
+
 Definition run (line : list N) : list N :=
   match split sp line with
   | [f; a] =>
@@ -29,6 +68,12 @@ Definition run (line : list N) : list N :=
       else if str_eqb f $"sort" then match pl a with Some l => r_ok (prl (sort l)) | None => r_badcase end
       else if str_eqb f $"clone" then match pl a with Some l => r_ok (prl (clone l)) | None => r_badcase end
       else if str_eqb f $"vnew" then match parse_nat a with Some n => r_ok (prl (vnew n)) | None => r_badcase end
+      else if str_eqb f $"vhist" then match map_opt parse_vinstr (split semi a) with
+                                      | Some prog => print_outcome print_regs (vhist prog [])
+                                      | None => r_badcase end
+      else if str_eqb f $"lhist" then match map_opt parse_linstr (split semi a) with
+                                      | Some prog => print_outcome print_regs (lhist prog [])
+                                      | None => r_badcase end
       else if str_eqb f $"unique" then match pl a with Some l => r_ok (prl (unique l)) | None => r_badcase end
       else r_badcase
   | [f; a; b] =>
